@@ -125,8 +125,27 @@ impl<'a> Choice<'a> {
     /// all-ones patterns.
     pub fn val(&mut self, bits: u32) -> u64 {
         let mask = if bits >= 64 { u64::MAX } else { (1u64 << bits) - 1 };
-        match self.below(9) {
+        match self.below(11) {
             0 | 1 => self.below(17),
+            // a small value as it looks when read in the other byte order
+            9 => {
+                let small = 1 + self.below(17);
+                match bits {
+                    0..=8 => small,
+                    9..=16 => (small as u16).swap_bytes() as u64,
+                    17..=32 => (small as u32).swap_bytes() as u64,
+                    _ => small.swap_bytes(),
+                }
+            }
+            // a count whose product with a structure size wraps around 2^bits to something small:
+            // ceil(k * 2^bits / size) + small
+            10 => {
+                let size = *self.pick(&[2u128, 4, 8, 12, 16, 20, 24, 32, 40, 56, 64]);
+                let k = 1 + self.below(3) as u128;
+                let w: u128 = if bits >= 64 { 1u128 << 64 } else { 1u128 << bits };
+                let v = (k * w + size - 1) / size + self.below(6) as u128;
+                v as u64 & mask
+            }
             2 | 3 => *self.pick(BOUNDARY) & mask,
             4 => self.u8() as u64,
             5 => self.u16() as u64 & mask,
